@@ -10,22 +10,7 @@ import hooks as hooks_mod
 from hooks import guarded, _webentities
 
 
-class always_yield(object):
-    """TraphIteratorState.should_yield forced to True (harness process only, scoped)."""
-
-    def __enter__(self):
-        import traph.traph_iterator_state as tis
-        self.cls = tis.TraphIteratorState
-        self.old = self.cls.should_yield
-
-        def should_yield(self_, yield_frequency=1000):
-            self_.n_iterations += 1
-            return True
-        self.cls.should_yield = should_yield
-
-    def __exit__(self, *a):
-        self.cls.should_yield = self.old
-        return False
+always_yield = impl.always_yield
 
 
 def make_scenario(seed, profile, backend):
